@@ -10,3 +10,4 @@ for c in "${cs[@]}"; do
   echo "$c rc=$rc wall=$((t1-t0))s :: $(echo "$out" | grep -E "^$c thorough" | cut -c1-200)"
   [ $rc -ne 0 ] && echo "$out" | grep -E "violation:|inconclusive:" | head -5 | cut -c1-400
 done
+exit 0
